@@ -380,6 +380,13 @@ func sortHostsReverseHostPort(hosts []string) []string {
 	for i, h := range hosts {
 		hosts[i] = ReverseHostPort(h)
 	}
+	// a host without glob characters matches exactly one name: it is more
+	// specific than any pattern, whatever the byte order of the reversed strings
+	// says (a '?' or '{' sorts above letters, and the reversed exact host is a
+	// prefix of a reversed pattern like "*foo.com")
+	sort.SliceStable(hosts, func(i, j int) bool {
+		return !strings.ContainsAny(hosts[i], "*?[{\\") && strings.ContainsAny(hosts[j], "*?[{\\")
+	})
 	return hosts
 }
 
